@@ -160,6 +160,21 @@ m("bw_timer_interference_capped", "src/ros2/bw.rs",
   "CallbackType::Timer | CallbackType::EventSource => arrived.min(arrived_bw + 1),\n            CallbackType::PolledUnknownPrio => arrived.min(arrived_bw + 1),",
   ["C05"], note="timers treated as if bounded by polling points")
 
+m("ecrts_own_wcet_uses_largest_job", "src/ros2/ecrts19.rs",
+  """        // cost of pp-based callback under analysis
+        let own_wcet = Duration::from(own_demand.least_wcet_in_interval(prefix + response));""",
+  """        // cost of pp-based callback under analysis
+        let own_wcet = Duration::from(own_demand.service_needed(Duration::epsilon()));""",
+  ["C04"], note="own WCET taken as the largest job cost instead of the least: invisible with scalar costs")
+m("rr_marginal_cost_least_wcet", "src/ros2/rr.rs",
+  "        let n = self.max_self_interfering_instances(delta);\n        self.cost_model.cost_of_jobs(n + 1) - self.cost_model.cost_of_jobs(n)",
+  "        let n = self.max_self_interfering_instances(delta);\n        self.cost_model.least_wcet(n + 1)",
+  ["C05"], note="marginal cost replaced by the least WCET: invisible with scalar costs")
+m("bw_marginal_cost_least_wcet", "src/ros2/bw.rs",
+  "        let n = self.max_self_interfering_instances(activation);\n        self.cost_model.cost_of_jobs(n + 1) - self.cost_model.cost_of_jobs(n)",
+  "        let n = self.max_self_interfering_instances(activation);\n        self.cost_model.least_wcet(n + 1)",
+  ["C05"], note="marginal cost replaced by the least WCET: invisible with scalar costs")
+
 # ---- supply --------------------------------------------------------------------------------
 m("periodic_sbf_slack_once", "src/supply/periodic.rs",
   "let x = slack + slack + self.period * full_periods;",
